@@ -2,6 +2,7 @@ package colvet
 
 import (
 	"fmt"
+	"go/token"
 	"sort"
 	"strings"
 
@@ -192,16 +193,79 @@ func (g *grammar) of(fn *ssa.Function) *gram {
 			}
 			return ""
 		}}
+	// a loop with a constant trip count (over a small literal table) is its body, N times
+	trips := map[*ssa.BasicBlock]int{}
+	tripOf := func(b *ssa.BasicBlock) int {
+		if n, ok := trips[b]; ok {
+			return n
+		}
+		n := 0
+		for _, hd := range b.Parent().Blocks {
+			if len(hd.Instrs) == 0 {
+				continue
+			}
+			iff, isIf := hd.Instrs[len(hd.Instrs)-1].(*ssa.If)
+			if !isIf {
+				continue
+			}
+			cmp, isCmp := iff.Cond.(*ssa.BinOp)
+			if !isCmp || cmp.Op != token.LSS {
+				continue
+			}
+			lim, isC := constInt(cmp.Y)
+			if !isC || lim < 1 || lim > 8 {
+				continue
+			}
+			start, okStart := int64(0), false
+			switch x := cmp.X.(type) {
+			case *ssa.Phi: // for i := 0; i < N; i++
+				for _, e := range x.Edges {
+					if c, isK := constInt(e); isK {
+						start, okStart = c, true
+					}
+				}
+			case *ssa.BinOp: // range over an array: i = φ(-1, i) + 1
+				if phi, isPhi := x.X.(*ssa.Phi); isPhi && x.Op == token.ADD {
+					if one, isOne := constInt(x.Y); isOne && one == 1 {
+						for _, e := range phi.Edges {
+							if c, isK := constInt(e); isK {
+								start, okStart = c+1, true
+							}
+						}
+					}
+				}
+			}
+			if !okStart || start != 0 {
+				continue
+			}
+			if (hd == b || reachAvoiding(hd.Succs[0], b, func(x *ssa.BasicBlock) bool { return x == hd }, nil) || hd.Succs[0] == b) && reachAvoiding(b, hd, nil, nil) {
+				n = int(lim)
+			}
+		}
+		trips[b] = n
+		return n
+	}
 	mand := map[string]bool{}
-	ok, why := evalPathsDeep(fn, cfg, func(_ map[string]bool, ev []pathEvent, _ *ssa.Return) bool {
+	ok, why := evalPathsDeep(fn, cfg, func(_ map[string]bool, ev []pathEvent, ret *ssa.Return) bool {
+		if ret == nil {
+			return true // a path cut at the second pass through a loop: its first pass is accounted for
+		}
 		var ts []wtok
 		for _, e := range ev {
 			star := loopOf(e.Ins.Block())
-			for _, t := range tokOf(e.Ins) {
-				if star && !t.star {
-					t = wtok{t.s, true}
+			reps := 1
+			if star {
+				if n := tripOf(e.Ins.Block()); n > 0 {
+					star, reps = false, n
 				}
-				ts = append(ts, t)
+			}
+			for i := 0; i < reps; i++ {
+				for _, t := range tokOf(e.Ins) {
+					if star && !t.star {
+						t = wtok{t.s, true}
+					}
+					ts = append(ts, t)
+				}
 			}
 		}
 		// consecutive starred primitives of one loop body form one group
